@@ -2,4 +2,5 @@
 EXTENDS Route
 ASSUME TLCSet(60, 0)
 EmitSampled == EmitEvery(23)
+EmitSampled2 == EmitEvery(47)
 =============================================================================
